@@ -2,6 +2,9 @@
 //   density gen SEED COUNT [heavy|split|nofree]   case lines from a seeded splitmix64 (split: "SP ..." lines, see runSplit;
 //                                      nofree: HC circuits WITHOUT free space -- every row covered by fixed obstructions, one macro over
 //                                      all rows or one obstruction per row leaving at most slivers <= 2*margin: finding F28)
+//   density gen SEED COUNT large       COUNT HR/HC lines of the LARGE-magnitude class (see genParts below)
+//   density gen SEED COUNT order       4*COUNT HR/HC lines: groups of four listings of the same set of regions / rows
+//                                      (bottom-up, top-down, even rows then odd rows, shuffled), see genOrderGroup below
 //   density run < cases                one trace line per case
 //
 // case lines (ints only):
@@ -277,6 +280,7 @@ static std::string genSplit(SplitMix &r) {
 // ------------------------------------------------------------------ generator
 // cells0: (fixed, width, height) of every cell of the case's circuit (HR: (0, demand, 1)), for the size updates (op 16)
 typedef std::vector<std::array<long long, 3> > Cells0;
+static bool g_large = false;   // large-magnitude class: no demand scaling (op 13 -> 12: `demand *= k` is int arithmetic in this harness)
 static void genTail(SplitMix &r, std::string &s, int ncells, int minX, int maxX, int minY, int maxY, int unit, bool degenerate, bool heavy,
                     const Cells0 &cells0) {
   auto put = [&](long long v) { s += " " + std::to_string(v); };
@@ -319,6 +323,7 @@ static void genTail(SplitMix &r, std::string &s, int ncells, int minX, int maxX,
     // a placement area without extent is outside the domain of the legalization passes (1e8/width)
     if (degenerate && (code == 4 || code == 5 || code == 6 || code == 9 || code == 10)) code = r.coin(50) ? 11 : 12;
     if (r.coin(updRate)) code = 16;
+    if (g_large && code == 13) code = 12;
     put(code);
     if (code == 16) {
       // size updates: merely different / to zero area / from zero area / arbitrary, then (often) a repair of every cell
@@ -332,6 +337,8 @@ static void genTail(SplitMix &r, std::string &s, int ncells, int minX, int maxX,
         else if (kind < 70) { if (r.coin(50)) { w = 0; h = r.coin(50) ? h0 : r.uni(0, 3); } else { w = r.coin(50) ? w0 : r.uni(0, 5); h = 0; } }
         else if (kind < 85) { w = r.uni(1, 6); h = r.uni(1, 2) * unit; }
         else { w = r.uni(0, 6); h = r.uni(0, 3); }
+        // cell areas stay below 2^31 (int demands in the C++); never reached by the small classes, consumes no randomness
+        if (w * h > (1LL << 30)) { h = std::min(h, (long long)unit); w = std::min(w, (1LL << 30) / std::max(1LL, h)); }
         if (ncells) { cur[c][1] = w; cur[c][2] = h; }
         ch.push_back({c + (r.coin(10) ? ncells : 0), w, h});
       }
@@ -453,8 +460,130 @@ static std::string genCase(SplitMix &r, bool heavy, bool nofree = false) {
   return s;
 }
 
+// ------------------------------------------------------------------ round-6 generators: large magnitudes, row / region order
+// A case in three parts: head ("HR binSize" / "HC binSize margin"), the list of regions (HR) or rows (HC) -- semantically a SET --
+// and the rest (cells + TAIL).  The same HR/HC case lines as above, so the model driver and the oracles read them unchanged.
+//   large: coordinates inside |v| <= 2^22 (extents up to 2^23), rows 2^14..2^19 high, bin sizes ext/12..ext/4: one fine bin holds up
+//          to ~2^42 area units, a column / a coarse view bin more, the whole grid up to ~2^46.  Movable cells stay small (area < 2^27;
+//          cell demands are int in the C++: areas >= 2^31 are outside the tie), fixed obstructions are as large as the rows.
+//   order: small coordinates, 2..10 rows (split into pieces in HR, by obstructions in HC), bin sizes that give several bin rows;
+//          every set is listed four times: bottom-up, top-down, interleaved (even rows then odd rows), shuffled.
+struct Parts { std::string head, rest; std::vector<std::pair<int, std::string> > items; };   // item = (row index, text)
+
+static void genParts(SplitMix &r, bool large, Parts &p) {
+  auto put = [](std::string &s, long long v) { s += " " + std::to_string(v); };
+  bool circuit = r.coin(45);
+  long long H, RH, W; int nrows;
+  if (large) {
+    H = 1LL << r.uni(0, 10); nrows = (int)r.uni(2, 12); RH = 1LL << r.uni(14, 19);
+    while (3LL * nrows * RH > (1LL << 23)) RH /= 2;            // rows + gaps fit in 2^23
+    W = r.coin(25) ? (1LL << 23) - r.uni(0, 1000) : r.uni(1LL << 18, 1LL << 23);
+    // 40 %: the whole geometry scaled down by 2^4..2^8 (bins of 2^22..2^34 units: the zone where a bin still fits 32 bits and a
+    // column or a coarse view bin does not)
+    int sh = r.coin(40) ? (int)r.uni(4, 8) : 0; RH = std::max(1LL, RH >> sh); W = std::max(1LL, W >> sh);
+  } else {
+    H = 1LL << r.uni(0, 3); nrows = (int)r.uni(2, 10); RH = H;
+    W = r.uni(1, 3LL * nrows * H + 8);
+  }
+  // rows relative to (0,0), then an origin such that everything stays inside the coordinate range of the class
+  struct RowG { long long a, b, y; };
+  std::vector<RowG> rows; long long y = 0;
+  for (int i = 0; i < nrows; ++i) {
+    if (r.coin(15)) y += r.coin(50) ? RH : r.uni(1, 2 * RH);
+    long long a = r.coin(30) ? r.uni(0, W / 3) : 0, b = W - (r.coin(30) ? r.uni(0, W / 3) : 0);
+    rows.push_back({a, b, y}); y += RH;
+  }
+  long long top = y, ox, oy;
+  if (large) { ox = r.uni(-(1LL << 22), (1LL << 22) - W); oy = r.uni(-(1LL << 22), (1LL << 22) - top); }
+  else { ox = r.uni(-60, 60); oy = r.uni(-60, 60); if (r.coin(10)) { ox *= 1000; oy *= 1000; } }
+  long long ext = std::max(W, top), lo = std::max(1LL, (ext + 11) / 12);
+  long long binSize;
+  if (large) binSize = r.coin(10) ? lo + r.uni(0, ext / 2) : lo + r.uni(0, 2 * lo + 2);
+  else binSize = r.coin(50) ? r.uni(lo, std::max(lo, top / 2)) : lo + r.uni(0, 2 * lo + 2);   // often >= 2 bin rows
+  long long util = r.uni(5, 130);
+  int ncells = r.coin(5) ? (int)r.uni(0, 1) : (int)r.uni(2, 22);
+  Cells0 cells0; long long minX, maxX, minY, maxY; bool degenerate = false;
+  if (!circuit) {
+    p.head = "HR"; put(p.head, binSize);
+    long long cap = 0; bool first = true;
+    for (int i = 0; i < nrows; ++i) {
+      long long a = ox + rows[i].a, b = ox + rows[i].b, x = a; int parts = (int)r.uni(1, 3); bool any = false;
+      for (int q = 0; q < parts && x < b; ++q) {
+        long long e = q == parts - 1 ? b : r.uni(x, b);
+        if (e > x) {
+          std::string it; put(it, x); put(it, e); put(it, oy + rows[i].y); put(it, oy + rows[i].y + RH);
+          p.items.emplace_back(i, it); any = true; cap += (e - x) * RH;
+          if (first) { minX = x; maxX = e; first = false; } else { minX = std::min(minX, x); maxX = std::max(maxX, e); }
+        }
+        x = e + r.uni(0, std::max(1LL, W / 4));
+      }
+      if (!any) {
+        std::string it; put(it, a); put(it, b); put(it, oy + rows[i].y); put(it, oy + rows[i].y + RH);
+        p.items.emplace_back(i, it); cap += (b - a) * RH;
+        if (first) { minX = a; maxX = b; first = false; } else { minX = std::min(minX, a); maxX = std::max(maxX, b); }
+      }
+    }
+    minY = oy + rows.front().y; maxY = oy + top;
+    long long avg = std::min(1LL << 25, std::max(1LL, cap * util / 100 / std::max(1, ncells)));
+    put(p.rest, ncells);
+    for (int i = 0; i < ncells; ++i) { long long dm = r.coin(15) ? 0 : r.uni(1, 2 * avg); put(p.rest, dm); cells0.push_back({0, dm, 1}); }
+  } else {
+    long long margin = r.coin(40) ? 0 : large && r.coin(50) ? r.uni(0, W / 8) : r.uni(0, 2 * H);
+    p.head = "HC"; put(p.head, binSize); put(p.head, margin);
+    for (int i = 0; i < nrows; ++i) {
+      std::string it; put(it, ox + rows[i].a); put(it, ox + rows[i].b); put(it, oy + rows[i].y); put(it, oy + rows[i].y + RH); put(it, r.uni(0, 7));
+      p.items.emplace_back(i, it);
+    }
+    int nfixed = (int)r.uni(0, 5), nmov = std::max(1, ncells);
+    put(p.rest, nfixed + nmov);
+    for (int i = 0; i < nfixed; ++i) {   // obstructions cutting the rows into pieces (some flagged non-obstruction, some outside)
+      long long fw = r.uni(0, std::max(1LL, W / 3)), fh = r.coin(70) ? RH * r.uni(0, 3) : r.uni(0, 3 * RH);
+      put(p.rest, ox + r.uni(-5, W)); put(p.rest, oy + r.uni(-RH, top)); put(p.rest, fw); put(p.rest, fh); put(p.rest, r.uni(0, 7));
+      put(p.rest, 1); put(p.rest, r.coin(80));
+      cells0.push_back({1, fw, fh});
+    }
+    long long avg = std::min(1LL << 24, std::max(1LL, W * top * util / 100 / nmov));
+    bool haveH = false;
+    for (int i = 0; i < nmov; ++i) {     // movable cells; at least one of height exactly H (the bin size / margin unit)
+      long long hh = (!haveH && i == nmov - 1) ? H : (r.coin(70) ? H : H * r.uni(1, 3)); if (hh == H) haveH = true;
+      long long ww = r.coin(12) ? 0 : std::max(1LL, r.uni(1, 2 * avg) / hh);
+      put(p.rest, ox + r.uni(0, W)); put(p.rest, oy + r.uni(0, top)); put(p.rest, ww); put(p.rest, hh); put(p.rest, 0); put(p.rest, 0); put(p.rest, r.coin(50));
+      cells0.push_back({0, ww, hh});
+    }
+    ncells = nfixed + nmov;
+    minX = ox; maxX = ox + W; minY = oy; maxY = oy + top;
+  }
+  genTail(r, p.rest, ncells, (int)minX, (int)maxX, (int)minY, (int)maxY, (int)H, degenerate, false, cells0);
+}
+
+static std::string joinParts(const Parts &p, const std::vector<int> &perm) {
+  std::string s = p.head; s += " " + std::to_string(p.items.size());
+  for (int k : perm) s += p.items[k].second;
+  return s + p.rest;
+}
+
+// the four listings of the same set: 0 bottom-up (as generated), 1 top-down, 2 even rows then odd rows, 3 shuffled
+static std::vector<std::string> genOrderGroup(SplitMix &r) {
+  Parts p; genParts(r, false, p);
+  int n = p.items.size(); std::vector<int> up(n), down, inter, shuf;
+  std::iota(up.begin(), up.end(), 0);
+  down.assign(up.rbegin(), up.rend());
+  for (int par = 0; par < 2; ++par) for (int k = 0; k < n; ++k) if (p.items[k].first % 2 == par) inter.push_back(k);
+  shuf = up; for (int i = n; i > 1; --i) std::swap(shuf[i - 1], shuf[r.uni(0, i - 1)]);
+  return {joinParts(p, up), joinParts(p, down), joinParts(p, inter), joinParts(p, shuf)};
+}
+
 int main(int argc, char **argv) {
   std::string mode = argc > 1 ? argv[1] : "run";
+  if (mode == "gen" && argc > 4 && (std::string(argv[4]) == "large" || std::string(argv[4]) == "order")) {
+    SplitMix r(strtoull(argv[2], nullptr, 10)); int count = atoi(argv[3]); bool large = std::string(argv[4]) == "large";
+    g_large = large;
+    for (int i = 0; i < count; ++i) {
+      if (large) { Parts p; genParts(r, true, p); std::vector<int> up(p.items.size()); std::iota(up.begin(), up.end(), 0); printf("%s\n", joinParts(p, up).c_str()); }
+      else for (const std::string &s : genOrderGroup(r)) printf("%s\n", s.c_str());
+    }
+    return 0;
+  }
   if (mode == "gen") {
     SplitMix r(strtoull(argv[2], nullptr, 10)); int count = atoi(argv[3]); bool heavy = argc > 4 && std::string(argv[4]) == "heavy";
     bool split = argc > 4 && std::string(argv[4]) == "split", nofree = argc > 4 && std::string(argv[4]) == "nofree";
